@@ -44,7 +44,10 @@ func (pc *pContext) setState(state state.State) {
 }
 
 func (pc pContext) verifyCommit(chainID string, blockID types.BlockID, height int64, commit *types.Commit) error {
-	return pc.state.Validators.VerifyCommitLight(chainID, blockID, height, commit)
+	// Every signature is checked (VerifyCommit, not VerifyCommitLight): the commit is
+	// stored as the seen commit of the block, and consensus rebuilds its LastCommit from
+	// it (reconstructLastCommit), which panics on any signature that does not verify.
+	return pc.state.Validators.VerifyCommit(chainID, blockID, height, commit)
 }
 
 func (pc *pContext) saveBlock(block *types.Block, blockParts *types.PartSet, seenCommit *types.Commit) {
